@@ -292,6 +292,8 @@ def parse_mir(text):
         if line.startswith('alloc'):
             m = re.match(r'alloc(\d+) \(', line)
             if m:
+                if line.rstrip().endswith('{}'):        # empty allocation printed on one line: `alloc233 (size: 0, align: 1) {}`
+                    allocs[int(m.group(1))] = []; continue
                 body = []
                 while i < n and not lines[i].startswith('}'):
                     body.append(lines[i]); i += 1
